@@ -299,8 +299,16 @@ theorem hasFormatter_int (g : Fid) (hg : isIntFid g = true) : hasFormatter g = t
   rw [hn]
   decide
 
-theorem intFmt_intVal (z : Int) : intFmt (intVal z) = some (intStr z) := by
-  simp [intFmt, intVal, List.isPrefixOf]
+theorem intDigitCount_intStr (z : Int) : intDigitCount (intStr z) = intStrDigits z := by
+  cases z with
+  | ofNat n => simp [intStr, intStrDigits, intDigitCount_digits _ (natStr_digits n)]
+  | negSucc n =>
+    simp only [intStr, intStrDigits, Int.natAbs_negSucc]
+    rw [intDigitCount_sign '-' (by decide), intDigitCount_digits _ (natStr_digits _)]
+
+theorem intFmt_intVal (z : Int) (hz : intStrDigits z ≤ Gen.intMaxStrDigits) : intFmt (intVal z) = some (intStr z) := by
+  have : ¬ Gen.intMaxStrDigits < intDigitCount (intStr z) := by rw [intDigitCount_intStr]; omega
+  simp [intFmt, intVal, List.isPrefixOf, this]
 
 theorem tokRes_int (env : FilterEnv) (g : Fid) (hg : isIntFid g = true) (s : Str) :
     tokRes (withInt env) (some g) s = intFilter s := by
@@ -310,7 +318,7 @@ theorem tokRes_int (env : FilterEnv) (g : Fid) (hg : isIntFid g = true) (s : Str
 theorem piece_int (env : FilterEnv) (fenv : FormatEnv) (g : Fid) (hg : isIntFid g = true) (z : Int) (nxt : Str)
     (hn : ∀ c, nxt.head? = some c → isDecDigit c = false) (hz : intStrDigits z ≤ Gen.intMaxStrDigits) :
     piece (withInt env) fenv (some g) nxt (intVal z) = .ok (.str (intStr z)) := by
-  simp only [piece, fmtOut, hasFormatter_int g hg, hg, intFmt_intVal, Bool.not_true, Bool.false_eq_true, if_false,
+  simp only [piece, fmtOut, hasFormatter_int g hg, hg, intFmt_intVal z hz, Bool.not_true, Bool.false_eq_true, if_false,
     if_true, sanity, withInt, intFilter_intStr z nxt hn hz, bind, Except.bind, pure, Except.pure, beq_self_eq_true]
 
 /-- `Stable` for the `int` wildcard -/
